@@ -86,7 +86,7 @@ func (c *fctx) rangeStmt() []*S {
 	}
 	opts := []opt{}
 	if cfg.Ranges {
-		opts = append(opts, opt{"slice", 5}, opt{"array", 3}, opt{"string", 4}, opt{"map", 3}, opt{"chan", 2}, opt{"int", 4}, opt{"small", 1}, opt{"mapnan", 1}, opt{"bound", 1}, opt{"assignidx", 1}, opt{"intcapture", 1})
+		opts = append(opts, opt{"slice", 5}, opt{"array", 3}, opt{"string", 4}, opt{"map", 3}, opt{"chan", 2}, opt{"int", 4}, opt{"small", 1}, opt{"mapnan", 1}, opt{"bound", 1}, opt{"assignidx", 1}, opt{"intcapture", 1}, opt{"nativeswitch", 2})
 	}
 	if cfg.Consume {
 		opts = append(opts, opt{"iter", 6}, opt{"pull", 3})
@@ -101,6 +101,31 @@ func (c *fctx) rangeStmt() []*S {
 	kind := opts[r.Pick(ws)].name
 	c.g.mark("range_" + kind)
 	c.g.needHelpers = true
+	if kind == "nativeswitch" {
+		// a loop that does NOT yield, with a switch in its body whose cases continue the loop or
+		// break out of the switch; the loop itself may sit in a yielding loop
+		obs := func(e string) string {
+			if c.gen && !c.inLit {
+				return "«Yield»(" + e + ")"
+			}
+			return fmt.Sprintf("vrt.E(%d, %s)", c.g.nextTag(), e)
+		}
+		head := []string{"for _, x9 := range mks(4)", "for x9 := range 5", "for x9 := 0; x9 < 5; x9++", "for _, x9 := range [4]int{3, 4, 5, 6}", "for x9 = range 4"}[r.Intn(5)]
+		pre := "acc9 := 0\n"
+		if head == "for x9 = range 4" {
+			pre += "x9 := 0\n"
+		}
+		body := fmt.Sprintf("switch x9 %% 3 {\ncase 1:\n\tcontinue\ncase 2:\n\tif x9 > 3 {\n\t\tbreak\n\t}\n\tacc9 += 100\n}\nacc9 += x9\nvrt.E(%d, x9, acc9)", c.g.nextTag())
+		if r.Chance(1, 3) {
+			body = fmt.Sprintf("switch v9 := any(x9).(type) {\ncase int:\n\tif v9%%2 == 1 {\n\t\tcontinue\n\t}\n}\nacc9 += x9\nvrt.E(%d, x9, acc9)", c.g.nextTag())
+		}
+		loop := head + " {\n\t" + replaceAll(body, "\n", "\n\t") + "\n}"
+		text := pre + loop + "\n" + obs("acc9")
+		if r.Chance(1, 3) {
+			text = "for r9 := 0; r9 < 2; r9++ {\n\t" + replaceAll(pre+loop+"\n"+obs("acc9 + r9"), "\n", "\n\t") + "\n}"
+		}
+		return []*S{{K: SRaw, ID: c.g.id(), Src: "{\n\t" + replaceAll(text, "\n", "\n\t") + "\n}"}}
+	}
 	if kind == "intcapture" {
 		// the variable of a range over an integer is a fresh variable per iteration (the
 		// construct exists only with Go >= 1.22 semantics): closures and nested generators
@@ -433,6 +458,19 @@ func (c *fctx) consumerLoop(pull bool) []*S {
 		// the body re-declares the loop variable at its top level
 		loop.Body = append([]*S{{K: SDecl, Name: loop.Name, E: bin(v(loop.Name), "+", lit(1))}}, loop.Body...)
 		c.g.mark("consumer_body_redeclares_loop_variable")
+	}
+	if loop.Op == ":=" && !redecl && r.Chance(1, 4) {
+		// the loop variable is captured (closure / pointer) and THEN re-declared by a ':=' that
+		// also declares another new variable: the capture keeps seeing the loop variable
+		id := c.g.id()
+		var text string
+		if r.Bool() {
+			text = fmt.Sprintf("get%[1]d := func() int { return %[2]s }\n%[2]s, ok%[1]d := %[2]s+100, true\n_ = ok%[1]d\nvrt.E(%[3]d, get%[1]d(), %[2]s)", id, loop.Name, c.g.nextTag())
+		} else {
+			text = fmt.Sprintf("ptr%[1]d := &%[2]s\n%[2]s, ok%[1]d := %[2]s*2, true\n_ = ok%[1]d\nvrt.E(%[3]d, *ptr%[1]d, %[2]s)", id, loop.Name, c.g.nextTag())
+		}
+		loop.Body = append([]*S{{K: SRaw, ID: id, Src: text}}, loop.Body...)
+		c.g.mark("consumer_loop_variable_captured_then_redeclared_by_mixed_define")
 	}
 	if loop.Op == ":=" {
 		loop.Body = append([]*S{{K: SUse, Name: loop.Name}}, loop.Body...)
